@@ -490,6 +490,21 @@ IFACE_OPTS = {
 }
 
 
+def parse_expected(iface, opt):
+    """what ONE interface option `name=value` means for that interface (usage text of the tool)"""
+    name, _, value = opt.partition('=')
+    if iface == 'aardvark':
+        if name == 'serial':
+            return {'serial_number': value}
+        key = {'pullups': 'enable_i2c_pullups', 'power': 'enable_target_power', 'fastmode': 'enable_fastmode'}[name]
+        return {key: value == 'on'}
+    if iface == 'ipmitool':
+        return {name: value}
+    if iface == 'ipmbdev':
+        return {'port': value}
+    return {}
+
+
 def gen_config(rng, full=False):
     """a configuration (what the user means) -> expected values; rendered by render_config"""
     cfg = {}
@@ -635,8 +650,11 @@ def c_outcome(o):
     s = observed_setup(o)
     kw = C.c_list(['(%s, %s)' % (C.c_str(k), ('IBool %s' % C.c_bool(v)) if isinstance(v, bool) else 'IStr %s' % C.c_str(v))
                    for k, v in sorted(s['kwargs'].items())])
+    def sstr(x):
+        return C.c_str('<None>' if x is None else str(x))          # None never equals what the model says
     sess = 'None' if s['session'] is None else '(Some (mkSession %s %s %s %s %d))' % (
-        C.c_str(s['session'][0]), C.c_Z(s['session'][1]), C.c_str(s['session'][2]), C.c_str(s['session'][3]), s['session'][4])
+        sstr(s['session'][0]), C.c_Z(s['session'][1] if isinstance(s['session'][1], int) else -1),
+        sstr(s['session'][2]), sstr(s['session'][3]), s['session'][4] if isinstance(s['session'][4], int) else 0)
     return '(Run (mkPlan %s %s %s %s %s %s %s %s %s))' % (
         C.c_str(s['iface']), kw, C.c_nat(o.selected[0]), c_strs(o.selected[1]), c_oz(s['addr']),
         C.c_opt(None if s['routing'] is None else c_hops(s['routing'])), sess, C.c_bool(o.verbose), C.c_bool(o.json))
@@ -883,7 +901,159 @@ def oracle_stage_fault(inp):
     return None
 
 
-ORACLES = {'stage_fault': oracle_stage_fault, 'command': oracle_command, 'power': oracle_power, 'options': oracle_options, 'raw': oracle_raw,
+# ---------------------------------------------------------------------------------------------
+# the real `ipmitool` back-end below main(): pyipmi.interfaces.create_interface is NOT substituted; the
+# subprocess it would start is (pyipmi.interfaces.ipmitool.Popen), and answers from the reference BMC
+RAW_RE = re.compile(r' -l (\d+) raw ((?:0x[0-9a-f]{2} ?)+)')
+
+
+def fake_popen_class(dev, lines):
+    class FakePopen:
+        def __init__(self, cmd, shell=False, stdout=None, **kw):
+            lines.append(cmd)
+            self.returncode = 0
+            m = RAW_RE.search(cmd)
+            self.out = b''
+            if m:
+                bs = [int(x, 16) for x in m.group(2).split()]
+                rsp = dev.handle(bs[0], bs[1], int(m.group(1)), bytes(bs[2:]))
+                if rsp[0] == 0:
+                    self.out = (' ' + ' '.join('%02x' % b for b in rsp[1:]) + '\n').encode()
+                else:
+                    self.returncode = 1
+                    self.out = ('Unable to send RAW command (channel=0x0 netfn=0x%x lun=0x%x cmd=0x%x rsp=0x%x): x\n'
+                                % (bs[0], int(m.group(1)), bs[1], rsp[0])).encode()
+
+        def communicate(self):
+            return self.out, None
+    return FakePopen
+
+
+@contextlib.contextmanager
+def patched_popen(dev, lines):
+    import pyipmi.interfaces.ipmitool as M
+    old = M.Popen
+    M.Popen = fake_popen_class(dev, lines)
+    try:
+        yield
+    finally:
+        M.Popen = old
+
+
+def run_cli_backend(argv):
+    """main() over the REAL interface factory; returns (Obs-like, command lines started)"""
+    import pyipmi
+    import pyipmi.logger
+    import pyipmi.ipmitool as T
+    PROCESS_LOG.append({'kind': 'cli', 'argv': list(argv)})
+    o = Obs()
+    lines = []
+    real_conn = pyipmi.create_connection
+
+    def conn(itf):
+        o.itf = itf
+        o.ipmi = real_conn(itf)
+        return o.ipmi
+    saved = (pyipmi.create_connection, pyipmi.logger.add_log_handler, pyipmi.logger.set_log_level, sys.argv, T.json_output)
+    pyipmi.create_connection = conn
+    pyipmi.logger.add_log_handler = lambda h: None
+    pyipmi.logger.set_log_level = lambda lvl: None
+    sys.argv = ['ipmitool.py'] + list(argv)
+    out, err = io.StringIO(), io.StringIO()
+    try:
+        with contextlib.redirect_stdout(out), contextlib.redirect_stderr(err), patched_time(), patched_popen(B.Bmc(), lines):
+            try:
+                T.main()
+                o.status = 0
+            except SystemExit as e:
+                o.status = 0 if e.code is None else e.code
+            except BaseException as e:  # noqa
+                o.exc = e
+    finally:
+        (pyipmi.create_connection, pyipmi.logger.add_log_handler, pyipmi.logger.set_log_level, sys.argv, T.json_output) = saved
+    o.stdout = out.getvalue()
+    return o, lines
+
+
+def run_api_backend(cfg, command, args):
+    """the equivalent direct API calls: create_interface(name, **options), connection, target, routing, session
+    setters with exactly the values the options name (user / password default to '' as `main` documents), then
+    the API call of the command"""
+    import pyipmi
+    import pyipmi.interfaces
+    PROCESS_LOG.append({'kind': 'api', 'session': None, 'judge': False})
+    want = expected_of(cfg)
+    lines = []
+    exc = None
+    itf = None
+    with contextlib.redirect_stdout(io.StringIO()), patched_time(), patched_popen(B.Bmc(), lines):
+        try:
+            itf = pyipmi.interfaces.create_interface(want['iface'], **want['kwargs'])
+            ipmi = pyipmi.create_connection(itf)
+            ipmi.target = pyipmi.Target(want['addr'])
+            if want['routing'] is not None:
+                ipmi.target.set_routing(want['routing'])
+            if 'H' in cfg:
+                ipmi.session.set_session_type_rmcp(cfg['H'], cfg.get('p', 623))
+                ipmi.session.set_auth_type_user(cfg.get('U', ''), cfg.get('P', ''))
+                if 'L' in cfg:
+                    ipmi.session.set_priv_level(cfg['L'])
+            try:
+                ipmi.open()
+                API_EQUIV[command][0](ipmi, args)
+            finally:
+                ipmi.close()
+        except Exception as e:  # noqa
+            exc = e
+    return itf, lines, exc
+
+
+def oracle_backend(inp):
+    """-I ipmitool: the command lines the tool starts equal those of the equivalent direct API calls, and carry every
+    option exactly as given: -I <interface_type>, -H <host>, -p <port>, -U / -P (also an empty or absent user),
+    -L <LEVEL>, -C <cipher suite> (0 included), -t <target address>"""
+    import shlex
+    cfg = dict(inp['cfg'])
+    if 'o' in cfg:
+        cfg['o'] = [tuple(x) for x in cfg['o']]
+    o, cli_lines = run_cli_backend(inp['argv'])
+    if o.exc is not None:
+        return 'Python error %s: %s' % (type(o.exc).__name__, str(o.exc)[:150])
+    itf, api_lines, api_exc = run_api_backend(cfg, inp['command'], inp['args'])
+    if api_exc is not None:
+        return 'the equivalent API calls fail (%s: %s) - harness defect' % (type(api_exc).__name__, api_exc)
+    if o.status != 0:
+        return 'exit status %r, output %r, although the API calls succeed' % (o.status, o.stdout[-120:])
+    if cli_lines != api_lines:
+        k = next((i for i, (a, b) in enumerate(zip(cli_lines, api_lines)) if a != b), min(len(cli_lines), len(api_lines)))
+        return 'the tool starts %r, the equivalent API calls start %r' % (cli_lines[k:k + 1], api_lines[k:k + 1])
+    if not cli_lines:
+        return 'no ipmitool command was started'
+    # independent expectation on every command line (lan / lanplus)
+    kw = expected_of(cfg)['kwargs']
+    typ = kw.get('interface_type', 'lan')
+    if typ in ('lan', 'lanplus') and 'H' in cfg:
+        levels = {'user': 'USER', 'operator': 'OPERATOR', 'administrator': 'ADMINISTRATOR'}
+        for line in cli_lines:
+            tok = shlex.split(line.replace(' 2>&1', ''))
+
+            def after(flag):
+                return [tok[i + 1] for i in range(len(tok) - 1) if tok[i] == flag]
+            want = [('-I', typ), ('-H', cfg['H']), ('-p', str(cfg.get('p', 623))), ('-U', cfg.get('U', '')),
+                    ('-P', cfg.get('P', '')), ('-L', levels[cfg.get('L', 'administrator')])]
+            if 'cipher' in kw:
+                want.append(('-C', str(int(kw['cipher']))))
+            if cfg.get('t', 0x20) and 'r' not in cfg and 'b' not in cfg:
+                want.append(('-t', '0x%02x' % cfg.get('t', 0x20)))
+            for flag, val in want:
+                if after(flag) != [val]:
+                    return 'command line %r: option %s carries %r, given %r' % (line, flag, after(flag), val)
+            if 'cipher' not in kw and after('-C'):
+                return 'command line %r has -C although no cipher was given' % line
+    return None
+
+
+ORACLES = {'stage_fault': oracle_stage_fault, 'backend': oracle_backend, 'command': oracle_command, 'power': oracle_power, 'options': oracle_options, 'raw': oracle_raw,
            'fault': oracle_fault, 'history': oracle_history}
 
 
@@ -930,6 +1100,11 @@ def run(ctx):
                 key = 'cli:%s:python-error:%s' % (cmd, msg.split()[2].rstrip(':'))
             elif name == 'command':
                 key = 'cli:%s:%s' % (cmd, 'requests-differ' if msg.startswith('requests differ') else 'other')
+        if msg and name == 'backend':
+            m2 = re.search(r'option (-\w) carries', msg)
+            key = 'backend:' + ('python-error:' + msg.split()[2].rstrip(':') if msg.startswith('Python error') else
+                                'option' + m2.group(1) if m2 else
+                                'tool-vs-api' if msg.startswith('the tool starts') else 'other')
         if msg and name == 'options':
             key = 'options:' + (('python-error:' + msg.split()[2].rstrip(':')) if msg.startswith('Python error') else
                                 '+'.join(w.rstrip(':') for w in msg.split() if w.endswith(':') and w.rstrip(':') in
@@ -1088,9 +1263,34 @@ def run(ctx):
             D.add(('power', sub), True, 'power')
 
     # ---- (b) options: property oracle + model
+    # deterministic part: EVERY subset of the session options {-H, -p, -U, -P, -L} (incl. -P without -U, -U without
+    # -P, and all of them without -H), falsy values ('', '0', port / address boundary), every single interface
+    # option of every interface with falsy values, every cipher of the small boundary set
+    import itertools
+    det = []
+    vals = {'H': ['10.0.0.1'], 'p': [623, 1], 'U': ['admin', '', '0'], 'P': ['secret', '', '0'], 'L': ['user', 'operator', 'administrator']}
+    for r in range(6):
+        for sub in itertools.combinations('HpUPL', r):
+            for pick in range(3):
+                det.append({k2: vals[k2][pick % len(vals[k2])] for k2 in sub})
+    for name, raw_opts in [('aardvark', ['serial=2237', 'serial=0', 'serial=', 'pullups=on', 'pullups=off', 'power=on', 'power=off',
+                                         'fastmode=on', 'fastmode=off']),
+                           ('ipmitool', ['interface_type=lan', 'interface_type=lanplus', 'interface_type=open',
+                                         'interface_type=serial-terminal'] + ['cipher=%d' % c for c in (0, 1, 3, 17, 254)]),
+                           ('ipmbdev', ['port=/dev/ipmb-0', 'port=0', 'port=']),
+                           ('rmcp', []), ('mock', [])]:
+        singles = [(o1, parse_expected(name, o1)) for o1 in raw_opts]
+        det.append({'I': name})
+        for one in singles:
+            det.append({'I': name, 'o': [one]})
+            det.append({'I': name, 'o': [one], 'H': '10.0.0.1', 'P': 'pw'})
+        for a2, b2 in itertools.combinations(singles, 2):
+            if a2[0].split('=')[0] != b2[0].split('=')[0] and (not q or rng.random() < 0.3):
+                det.append({'I': name, 'o': [a2, b2]})
+    det += [{'t': t} for t in (1, 0x20, 0x82, 0xfe, 0xff)] + [{'p': pp, 'H': 'h'} for pp in (0, 1, 623, 65535)]
     nopt = 150 if q else 2500
-    for k in range(nopt):
-        cfg = gen_config(rng, full=(k % 3 == 0))
+    for k in range(len(det) + nopt):
+        cfg = det[k] if k < len(det) else gen_config(rng, full=(k % 3 == 0))
         tail = rng.choice([['raw', '6', '1'], ['bmc', 'info'], ['raw', 'lun', '1', '0x06', '0x01'], ['chassis', 'status']])
         argv = render_config(rng, cfg) + tail
         jcfg = dict(cfg)
@@ -1100,6 +1300,36 @@ def run(ctx):
         o = run_cli(argv, B.Bmc().handle)
         main_case(argv, o, 'options')
         D.add(('opt', tuple(argv)), bool(cfg), 'options-%d' % min(len(cfg), 6))
+    # ---- (b2) the real ipmitool back-end below main(): every subset of {-p, -U, -P, -L} with -H, falsy values,
+    # interface types lan / lanplus, every cipher of the boundary set and none; judged against the equivalent direct
+    # API calls (same command lines started) and against what the options say (tokens of each command line)
+    back = []
+    for r in range(5):
+        for sub in itertools.combinations('pUPL', r):
+            for pick in range(2 if q else 3):
+                c2 = {k2: vals[k2][pick % len(vals[k2])] for k2 in sub}
+                c2.update({'H': '10.0.0.1', 'I': 'ipmitool'})
+                back.append(c2)
+    for typ in (None, 'lan', 'lanplus'):
+        for ci in (None, 0, 1, 3, 17, 254):
+            opts = ([('interface_type=%s' % typ, {'interface_type': typ})] if typ else []) + \
+                   ([('cipher=%d' % ci, {'cipher': str(ci)})] if ci is not None else [])
+            for extra in ({}, {'U': 'admin', 'P': 'secret', 'L': 'operator'}, {'P': '0'}):
+                c2 = {'H': 'bmc.example', 'I': 'ipmitool'}
+                if opts:
+                    c2['o'] = opts
+                c2.update(extra)
+                back.append(c2)
+    back += [{'H': 'h', 'I': 'ipmitool', 't': t} for t in (1, 0x82, 0xff)]
+    for k, cfg in enumerate(back):
+        words, cargs = [['raw', '6', '1'], ['chassis', 'status'], ['bmc', 'info'], ['chassis', 'power', 'cycle']][k % 4], []
+        command = ' '.join(words) if words[0] != 'raw' else 'raw'
+        cargs = ['6', '1'] if words[0] == 'raw' else []
+        argv = render_config(rng, cfg) + words
+        oracle('backend', {'cfg': cfg, 'argv': argv, 'command': command, 'args': cargs},
+               'backend:%s' % '+'.join(sorted(cfg)))
+        D.add(('backend', tuple(argv)), True, 'ipmitool-backend')
+
     # malformed / unusual command lines: model only (these are not promised by the property)
     weird = [['-t', '0', 'raw', '6', '1'], ['-t', '08', 'raw', '6', '1'], ['-t', '0x', 'raw', '6', '1'], ['-t', '', 'raw', '6', '1'],
              ['-t', '-5', 'raw', '6', '1'], ['-t', '+0x20', 'raw', '6', '1'], ['-t', '12a', 'raw', '6', '1'], ['-t', '00', 'raw', '6', '1'],
@@ -1240,7 +1470,7 @@ def run(ctx):
     # if not, the failure depends on earlier runs: give it the history (shrunk, confirmed in a fresh process)
     for key in list(fails):
         v = fails[key]
-        if v.replay.get('oracle') not in ('options', 'command', 'power', 'raw', 'fault', 'stage_fault'):
+        if v.replay.get('oracle') not in ('options', 'command', 'power', 'raw', 'fault', 'stage_fault', 'backend'):
             continue
         if not C.holds_in_fresh_process('C20', v.replay):
             continue                                  # reproduces on its own: a plain finding
